@@ -129,7 +129,10 @@ class FileGameBuilder:
 
     def __init__(self, rng, c=None, interior=True, unnamed_rate=0.3, shuffle=True, denom=None):
         self.r = rng
-        self.c = Fraction(rng.choice([0, 0, 1, 10, -3, 7])) / rng.choice([1, 1, 2, 4]) if c is None else Fraction(c)
+        # the constant ranges from far below 0.1 % of the payoff spread (1/4000) to far above it (10^6)
+        self.c = (Fraction(rng.choice([0, 0, 1, 10, -3, 7])) / rng.choice([1, 1, 2, 4]) if rng.random() < 0.6 else
+                  Fraction(rng.choice([1, -1, 3, 7]), rng.choice([100, 1000, 4000])) if rng.random() < 0.7 else
+                  Fraction(rng.choice([1000, -5000, 10 ** 6]))) if c is None else Fraction(c)
         self.interior = interior
         self.unnamed_rate = unnamed_rate
         self.shuffle = shuffle
